@@ -60,6 +60,7 @@ type vSimPlan struct {
 	Reclaim        int64       `json:"reclaim"`    // ms
 	GossipDead     int64       `json:"gossipDead"` // ms; 0 = the family's value
 	SlowMsg        int64       `json:"slowMsg"`    // ms the application takes per user message
+	Ports          bool        `json:"ports"`      // every member listens on a port of its own
 	Events         []vSimEvent `json:"events"`
 	EndAt          int64       `json:"endAt"`
 	Settle         int64       `json:"settle"`
@@ -68,6 +69,7 @@ type vSimPlan struct {
 type vSimNode struct {
 	name  string
 	ip    net.IP
+	port  int
 	m     *Memberlist
 	mp    *Memberlist
 	cell  **Memberlist
@@ -199,8 +201,8 @@ func (v *vSim) conf(nd *vSimNode) *Config {
 		c.GossipToTheDeadTime = time.Duration(p.GossipDead) * time.Millisecond
 	}
 	c.Name = nd.name
-	c.BindPort = 7946
-	c.AdvertisePort = 7946
+	c.BindPort = nd.port
+	c.AdvertisePort = nd.port
 	c.Logger = log.New(io.Discard, "", 0)
 	if os.Getenv("VERIF_SIMLOG") != "" {
 		c.Logger = log.New(os.Stderr, nd.name+" ", 0)
@@ -217,7 +219,7 @@ func (v *vSim) conf(nd *vSimNode) *Config {
 	}
 	c.DeadNodeReclaimTime = time.Duration(p.Reclaim) * time.Millisecond
 	c.RequireNodeNames = false
-	nd.tr = v.net.attach(nd.name, nd.ip, 7946)
+	nd.tr = v.net.attach(nd.name, nd.ip, nd.port)
 	c.Transport = nd.tr
 	c.Delegate = nd.md
 	// every instance (epoch) gets its own cell: a crashed instance that still drains its
@@ -233,6 +235,10 @@ func (v *vSim) startNode(name string) *vSimNode {
 	if !ok {
 		idx := len(v.nodes) + 1
 		nd = &vSimNode{name: name, ip: net.IPv4(10, 0, byte(idx/250), byte(idx%250+1)).To4(), md: &vMetaDelegate{slow: time.Duration(v.plan.SlowMsg) * time.Millisecond}}
+		nd.port = 7946
+		if v.plan.Ports {
+			nd.port = 7946 + idx
+		}
 		nd.meta = "m-" + name + "-0"
 		nd.md.set([]byte(nd.meta))
 		v.nodes[name] = nd
@@ -347,7 +353,7 @@ func (v *vSim) exec(e vSimEvent) {
 		if nd == nil || !nd.up || to == nil {
 			return
 		}
-		addr := fmt.Sprintf("%s/%s:7946", to.name, to.ip.String())
+		addr := fmt.Sprintf("%s/%s:%d", to.name, to.ip.String(), to.port)
 		m := nd.m
 		v.api(nd, "Join", func() error { _, err := m.Join([]string{addr}); return err })
 	case "crash":
